@@ -150,7 +150,9 @@ func StateOf(p *model.DecisionMakingParams) State {
 	return s
 }
 
-func (s State) All() []StateAlt { return append(append([]StateAlt{}, s.Considered...), s.NotConsidered...) }
+func (s State) All() []StateAlt {
+	return append(append([]StateAlt{}, s.Considered...), s.NotConsidered...)
+}
 
 func (s State) CritIDs() []string {
 	var out []string
